@@ -10,6 +10,7 @@ import Emboss.Lemmas.ViewMono2
 import Emboss.Lemmas.Synth
 import Emboss.Lemmas.Locality
 import Emboss.Lemmas.ViewRefArray
+import Emboss.Lemmas.SizeFolds
 namespace Emboss.View
 open Emboss.ViewSpec
 
@@ -128,6 +129,39 @@ expression. -/
 theorem C01_sizeCovers_of_plain (m : Module) (hm : moduleWF m = true) (sd : StructDef)
     (hwf : structWF m sd = true) (hp : plainSize sd) : SizeCovers m sd :=
   sizeCovers_of_plain hm hwf hp
+
+/-- `SizeCovers` reduced to C05's subject.  `SizeFoldsExact m sd` (Lemmas/SizeFolds.lean): whenever
+a view's partial environment gives the *annotated* `$size_in_*` expression the value `sz`, some
+completion of that environment gives the un-annotated synthesized expression the same `sz` — the
+content of `C05_constant_value_agrees` / `C05_size_bounds` (folded constants are exact in every
+environment whose leaves hold values of their physical types) on the bounds model.  Under it the
+hypothesis of `C01_ok_monotone_arrays_partial`, `C01_locality_partial`,
+`C20_equals_ignores_padding_partial` holds.  (Result of the round-3 check "can `SizeCovers` be
+discharged from `C05_sound`": not by a Lean theorem across the two models — different expression
+types, partial vs. total environments — but this is the exact interface.) -/
+theorem C01_sizeCovers_of_exact_folds (m : Module) (hm : moduleWF m = true) (sd : StructDef)
+    (hwf : structWF m sd = true) (h : SizeFoldsExact m sd) : SizeCovers m sd :=
+  sizeCovers_of_foldsExact hm hwf h
+
+/-- … and **discharged** for a decidable class of real IRs: if every constant-folding annotation
+in the structure's size expression and in its fields' conditions / locations is a *closed
+constant* (`structClosedFolds`, Model/Synth.lean: the annotated node's source expression
+evaluates to the literal in the environment that knows nothing — all-static structures and the
+static clauses of dynamic ones; not literals derived from a range), then `SizeCovers` holds.  The
+driver evaluates `structClosedFolds` on every structure of every real IR (`cov=` in the `IR`
+answer); for those structures `C01_ok_monotone_arrays_partial` & co. have no semantic hypothesis
+left. -/
+theorem C01_sizeCovers_of_closed_folds (m : Module) (hm : moduleWF m = true) (sd : StructDef)
+    (hwf : structWF m sd = true) (h : structClosedFolds sd = true) : SizeCovers m sd :=
+  sizeCovers_of_foldsExact hm hwf (sizeFoldsExact_of_closed h)
+
+/-- `Ok()` is prefix-monotone, arrays included, for every structure with closed-constant
+annotations — all hypotheses decidable and evaluated by the driver on the real IR. -/
+theorem C01_ok_monotone_closed_folds (m : Module) (hm : moduleWF m = true) (sd : StructDef)
+    (hsd : structWF m sd = true) (hcf : structClosedFolds sd = true) (ps : List Val) (b c : List Nat)
+    (n : Nat) :
+    (G m n).okAt (rootView sd ps b) [] = true → (G m n).okAt (rootView sd ps (b ++ c)) [] = true :=
+  C01_ok_monotone_arrays_partial m hm sd hsd (C01_sizeCovers_of_closed_folds m hm sd hsd hcf) ps b c n
 
 /-- More fuel never changes an answer that was already known (so the fuel the driver uses is
 immaterial once `fuelOK` holds). -/
@@ -672,6 +706,26 @@ theorem C01_prefix_monotone_counterexample :
     (G cexM 4).read (rootView cexSd [] [5, 7]) ["x"] = some (.int 7) ∧
     (G cexM 4).read (rootView cexSd [] ([5, 7] ++ [9])) ["x"] = none := by
   decide
+
+/-- C01's example with the annotation the compiler puts on the static first clause of its size
+expression: `$max(0, ⟨1⟩(true ? 0+1 : 0), tag == 1 ? 1+2 : 0, true ? 3+tag : 0)`. -/
+def exFoldSd : StructDef :=
+  { exSd with fields := exPhys ++
+      [ { name := "$size", anon := false, cond := .const (.bool true),
+          kind := .virt (.op .max (.cons (.const (.int 0))
+            (.cons (.fold (.int 1) (sizeClause (.const (.bool true)) (.const (.int 0)) (.const (.int 1))))
+              (sizeClauses (exPhys.drop 1))))) none } ] }
+
+/-- non-vacuity of `C01_sizeCovers_of_closed_folds` / `C01_ok_monotone_closed_folds`: the
+annotated example is in the decidable class (and not `plainSize`: it has an annotation), so
+`SizeCovers` holds for it and `Ok()` on `01 05 00 09` persists. -/
+example : structClosedFolds exFoldSd = true ∧ moduleWF { structs := [exFoldSd] } = true ∧
+    structWF { structs := [exFoldSd] } exFoldSd = true ∧
+    (G { structs := [exFoldSd] } 6).okAt (rootView exFoldSd [] [1, 5, 0, 9]) [] = true := by
+  decide
+
+example : SizeCovers { structs := [exFoldSd] } exFoldSd :=
+  C01_sizeCovers_of_closed_folds _ (by decide) _ (by decide) (by decide)
 
 /-- non-vacuity of `C01_moduleWF_iff`: C01's example module satisfies both parts; the
 counterexample of the open finding satisfies the part the front end enforces and fails only the
